@@ -6,6 +6,9 @@ def T(shards=8, procs=2, timeout=600, **kw):
     return d
 
 CHECKS = {
+    "C14": {"pkg": "c14", "level": "exploration",
+            "quick": T(8, 2, 600), "thorough": T(14, 1, 2400),
+            "assumptions": ["DTLS 1.2 only (1.3 tickets are sent but never consumed in this tree)", "store model = the harness-owned recording stores"]},
     "C16": {"pkg": "c16", "level": "exploration",
             "quick": T(8, 2, 900, unconfirmed_is_violation=True, race={"shards": 4, "procs": 4, "timeout": 600, "only": "concurrent-api"}),
             "thorough": T(14, 1, 3000, unconfirmed_is_violation=True, race={"shards": 8, "procs": 2, "timeout": 1500, "only": "concurrent-api"}),
